@@ -937,23 +937,27 @@ def corpus_abort(tier):
         Raw(b"@", None, ("class", "command")), Raw(b"SET? #15ab", ("set", "query", (("Err",),)), ("class", "command")),  # stray byte, truncated block
         Raw(b"SET \xff", ("set", "event", (("Err",),)), ("class", "command")), Raw(b"ABCDEFGHIJKLM?", None, ("class", "command")),
         Raw(b"SET 1,,2", ("set", "event", (("tok", "DecimalNumericProgramData", b"1"),)), ("class", "command")), Raw(b"BRAN::LEAF", None, ("class", "command")),
+        Raw(b"", None, ("class", "command")), Raw(b" ", None, ("class", "command")),     # an empty unit (`A;;B`, `A; ;B`): the units before it have run (seed C05-M)
     ]
     out = []
     rich = tier == "thorough"
     n = 0
     for bi, bad in enumerate(bad_units):
         for pos in range(0, 3):
-            for rot in (range(len(ok_units)) if rich else (bi % len(ok_units),)):
+            blank = isinstance(bad, Raw) and not bad.text.strip()
+            # (an empty unit after every kind of unit - with and without parameters, query and command - in both tiers)
+            for rot in (range(len(ok_units)) if rich or blank else (bi % len(ok_units),)):
                 pre = [ok_units[(rot + i) % len(ok_units)] for i in range(pos)]
                 post = [ok_units[(rot + pos + i) % len(ok_units)] for i in range(2 if rich else 1)]
                 import copy
                 bad2 = copy.copy(bad)
                 if pos and bad2.render()[:1] != b"*":
                     bad2.colon = True           # resolve from the root whatever level the units before left behind
+                empty = isinstance(bad, Raw) and not bad.text.strip()     # (as the last unit it is just a trailing `;`)
                 out.append((pre + [bad2], post))
-                if pos == 1 or rich:
+                if (pos == 1 or rich) and not empty:
                     out.append((pre + [bad2], []))
-                if not rich:
+                if not rich and not blank:
                     break
     rows = []
     for units, post in out:
